@@ -248,7 +248,7 @@ func infixOf(t *GT) string {
 func init() {
 	register(&PropDef{
 		ID:   "C06",
-		Rule: "source strings: valid prefix and infix renderings of random trees, token-level mutations of them (delete/duplicate/swap/truncate/replace/insert), every prefix of valid sources, random strings over a delimiter-rich alphabet with non-ASCII letters and Unicode spaces, empty/blank/comment-only sources; both notations x option subsets x event modes; Compile, and on success Eval, TryEval, Dump, DumpTable under a random binding (incl. list-typed and nil values), each under recover(); a case is non-trivial when the source is not a valid rendering (mutated, truncated or random); distinct = distinct (source, notation)",
+		Rule: "source strings: valid prefix and infix renderings of random trees, token-level mutations of them (delete/duplicate/swap/truncate/replace/insert), every prefix of valid sources, random strings over a delimiter-rich alphabet with non-ASCII letters and Unicode spaces, empty/blank/comment-only sources; both notations x option subsets x event modes; Compile, and on success Eval, TryEval, Dump, DumpTable under a random binding (incl. list-typed and nil values), each under recover(); on success also the library's own contexts (NewCtxFromVars over key maps with a far or negative key) with Eval/EvalBool/TryEvalBool; a case is non-trivial when the source is not a valid rendering (mutated, truncated or random); distinct = distinct (source, notation)",
 		Assumptions: []string{"panics are observed with recover(); hangs by the check's overall timeout", "fetchers and operators are the harness's well-behaved ones"},
 		Gen: genC06,
 	})
